@@ -81,8 +81,11 @@ func genStoreSpec(rt *rapid.T, maxTxs int) *storeSpec {
 	cfg.Synced = false
 	cfg.MaxTxEntries = rapid.SampledFrom([]int{8, 64}).Draw(rt, "maxTxEntries2")
 	cfg.MaxKeyLen = rapid.SampledFrom([]int{64, 256}).Draw(rt, "maxKeyLen2")
-	cfg.Embedded = rapid.IntRange(0, 2).Draw(rt, "embedded2") == 0
-	cfg.Compression = rapid.SampledFrom(compressions).Draw(rt, "compression2")
+	cfg.Embedded = uni(rt, 3, "embedded2") == 0
+	cfg.HdrVersion = []int{1, 1, 0}[uni(rt, 3, "hdrVersion2")]
+	cfg.IOConc = 1 + uni(rt, 3, "ioConc2")
+	cfg.FileSize = []int{256, 512, 1024, 4096, 1 << 20}[uni(rt, 5, "fileSize2")]
+	cfg.Compression = compressions[uni(rt, len(compressions), "compression2")]
 	if cfg.Embedded {
 		cfg.IOConc = 1
 		cfg.Compression = appendable.NoCompression
@@ -99,7 +102,7 @@ func genStoreSpec(rt *rapid.T, maxTxs int) *storeSpec {
 	genValue := func() []byte {
 		ctr++
 		var v []byte
-		switch rapid.IntRange(0, 11).Draw(rt, "vshape") {
+		switch uni(rt, 12, "vshape") {
 		case 0:
 			v = []byte{}
 		case 1:
@@ -131,7 +134,7 @@ func genStoreSpec(rt *rapid.T, maxTxs int) *storeSpec {
 	}
 	for i := 0; i < n; i++ {
 		var t txSpec
-		if cfg.HdrVersion == 1 && rapid.IntRange(0, 19).Draw(rt, "noEntries") == 0 {
+		if cfg.HdrVersion == 1 && uni(rt, 25, "noEntries") == 0 {
 			// a transaction without entries is legal when it carries the truncated-up-to attribute
 			t.Trunc = uint64(rapid.IntRange(1, 50).Draw(rt, "trunc"))
 			s.Txs = append(s.Txs, t)
@@ -139,9 +142,9 @@ func genStoreSpec(rt *rapid.T, maxTxs int) *storeSpec {
 		}
 		ne := rapid.SampledFrom([]int{1, 1, 1, 2, 2, 3, 5, 8}).Draw(rt, "nEntries")
 		for j := 0; j < ne; j++ {
-			e := stx.Entry{Key: keys[rapid.IntRange(0, len(keys)-1).Draw(rt, "key")], Value: genValue()}
+			e := stx.Entry{Key: keys[uni(rt, len(keys), "key")], Value: genValue()}
 			if cfg.HdrVersion == 1 {
-				switch rapid.IntRange(0, 19).Draw(rt, "kvmd") {
+				switch uni(rt, 20, "kvmd") {
 				case 0, 1:
 					e.Deleted = true
 				case 2, 3:
@@ -160,7 +163,7 @@ func genStoreSpec(rt *rapid.T, maxTxs int) *storeSpec {
 		}
 		t.Entries = stx.Dedup(t.Entries)
 		if cfg.HdrVersion == 1 {
-			switch rapid.IntRange(0, 11).Draw(rt, "txmd") {
+			switch uni(rt, 12, "txmd") {
 			case 0, 1:
 				t.Extra = []byte(fmt.Sprintf("extra-%d", i))
 			case 2:
